@@ -1,7 +1,8 @@
-WEAVE = [dict(file='src/work_queue.c', fns=['work_queue_push', 'work_queue_get_work'], loops='loops.json')]
+WEAVE = [dict(file='src/work_queue.c', fns=['work_queue_push', 'work_queue_get_work', 'work_queue_init'], loops='loops.json')]
 GROUPS = [
     dict(name='push', tu='workqueue.c', harness='h_push', mode='D', enforce='work_queue_push', replace=['mpsc_fifo_push', 'mpsc_fifo_trypop'], functions=['work_queue_push'], no_native='callee contracts only in DFCC form'),
     dict(name='get_work', tu='workqueue.c', harness='h_get_work', mode='D', enforce='work_queue_get_work', replace=['mpsc_fifo_push', 'mpsc_fifo_trypop'], functions=['work_queue_get_work'], no_native='callee contracts only in DFCC form'),
+    dict(name='init', tu='init.c', harness='h_init', mode='H', functions=['work_queue_init']),
     dict(name='lemmas', tu='lemmas.c', kind='lemmas', harness='', no_native='pure lemma'),
 ]
 ASSUMPTIONS = ['A5 counters below 2^58', 'mpsc_fifo_push / mpsc_fifo_trypop by the contracts proved under C15 (each pushed node popped exactly once; NULL only when empty or a push is in flight)',
